@@ -341,13 +341,12 @@ CHOICE_decode_ber(const asn_codec_ctx_t *opt_codec_ctx,
 					ctx->left++;
 					continue;
 				}
-			} else {
-				ASN_DEBUG("Unexpected continuation in %s",
-					td->name);
-				RETURN(RC_FAIL);
 			}
 
-			/* UNREACHABLE */
+			/* Anything but <0><0> here, including <0><non-0> */
+			ASN_DEBUG("Unexpected continuation in %s",
+				td->name);
+			RETURN(RC_FAIL);
 		}
 
 		NEXT_PHASE(ctx);
